@@ -3950,10 +3950,10 @@ Section AnyLoop.
   Hypothesis rec_eoo : forall sp acc sfun s tl, avail s = 0 :: 0 :: tl ->
     resume (rec sp acc None true sfun) s = inr (Ok DEoo, adv s 2).
 
-  Lemma any_indef_loop_run lf sp ts (sfun tagged: bool) : forall parts,
+  Lemma any_indef_loop_run sp ts (sfun tagged: bool) : forall parts,
     Forall (fun p => consumes (rec (STy TAny) [] None true true) p (DRaw p)) parts ->
     forall n acc s tl, (length parts < n)%nat -> avail s = concat parts ++ [0; 0] ++ tl ->
-    exists s', resume (any_indef_loop rec lf sp ts sfun tagged n acc) s
+    exists s', resume (any_indef_loop rec sp ts sfun tagged n acc) s
                = resume (let whole := acc ++ concat parts ++ (if tagged then [] else [0; 0]) in
                          if sfun then Ret (DRaw whole) else create sp TAny ts (VAny whole)) s'
       /\ pos s' = (pos s + (length (concat parts) + 2))%nat /\ arrived s' = arrived s /\ closed s' = closed s /\ mark s' = mark s' .
@@ -4042,10 +4042,10 @@ Proof.
       { apply Forall_forall. intros p Hp. apply in_map_iff in Hp. destruct Hp as (k & <- & Hk).
         rewrite Forall_forall in IH, Hkids. destruct (Hkids k Hk) as (Hnk & Hke & _).
         rewrite forallb_forall in Hu0k.
-        apply (IH k Hk (S f') true true (nok_mono _ _ _ Hnk (Nat.le_succ_diag_r f')) (Hu0k k Hk) (Hke eq_refl)). }
+        apply (IH k Hk (S f') true true (nok_mono _ _ _ Hnk (Nat.le_succ_diag_r f')) (Hu0k k Hk) Hke). }
       assert (Hav1: avail s1 = concat (map node_raw kids) ++ [0; 0] ++ tl).
       { subst s1 hl. rewrite avail_adv, avail_setmark, Hav. rewrite app_assoc, <- app_length. rewrite skipn_app_exact. reflexivity. }
-      destruct (any_indef_loop_run (dec_call BER (S (S f'))) (dec_call_eoo (S f')) (S (S f')) (Some TAny) [mkTag c true num] sfun false
+      destruct (any_indef_loop_run (dec_call BER (S (S f'))) (dec_call_eoo (S f')) (Some TAny) [mkTag c true num] sfun false
                   (map node_raw kids) Hparts (S (S f')) (ib ++ lb) s1 tl ltac:(rewrite map_length; lia) Hav1)
         as (s2 & Hrun & Hpos & Harr & Hcl & _).
       rewrite Hrun. cbv zeta. fold (kids_raw kids).
